@@ -232,6 +232,45 @@ fn main() {
                 universes.push((format!("r{}n{}k{}e{}u{}", i, n, kcode, ecode, ucode), g));
             }
         }
+        "shapes" => {
+            // explicit graphs: one "KINDS:a-b,c-d" per line of the file (# comments)
+            let path = get("file", "/verif/harness/shapes.txt");
+            let text = std::fs::read_to_string(&path).expect("shapes file");
+            for (ln, line) in text.lines().enumerate() {
+                let line = line.trim();
+                if line.is_empty() || line.starts_with('#') {
+                    continue;
+                }
+                let (kinds, edges) = line.split_once(':').unwrap_or((line, ""));
+                let kinds: Vec<char> = kinds.chars().collect();
+                let n = kinds.len();
+                let mut kcode = 0;
+                for (i, c) in kinds.iter().enumerate() {
+                    let k = match c {
+                        'A' => 0,
+                        'O' => 1,
+                        _ => 2,
+                    };
+                    kcode += k * 3usize.pow(i as u32);
+                }
+                let mut g = graph_from_codes(n, kcode, 0, 0);
+                for e in edges.split(',').filter(|x| !x.is_empty()) {
+                    let (a, b) = e.split_once('-').unwrap();
+                    g.edges.insert((format!("N{}", a.trim()), format!("N{}", b.trim())));
+                }
+                for j in g.kind.keys().cloned().collect::<Vec<_>>() {
+                    let mut s = BTreeSet::new();
+                    for u in g.ups(&j) {
+                        for m in names_of(&u) {
+                            s.insert(m);
+                        }
+                    }
+                    g.uses.insert(j, s);
+                }
+                g.normalise_ids();
+                universes.push((format!("shape{}", ln + 1), g));
+            }
+        }
         "uid" => {
             // one universe of the exhaustive / random enumeration, by its id: [r<i>]n<N>k<K>e<E>u<U>
             let uid = get("uid", "");
